@@ -16,35 +16,36 @@ unwinding included" is the language's guarantee):
   R6 no abort         no Cargo profile in the workspace sets panic = "abort"
 Not decided: that Docker honours the commands; double faults (a panicking ContainerContext::drop during unwinding
 aborts the process) — documented observation, two independent faults are outside the one-injection quantifier.
+
+How the obligations are read off the facts (so that they hold for every spelling of the same behaviour):
+  * "drop runs command X" / "start_container issues `docker run`" / "pack is given names" / "rebuild forwards the guard"
+    are effects (lib/effects.py) of the entry function with run_command, the command constructors and build_internal in
+    the vocabulary: helpers, closures handed to combinators and loops over literal command tables are transparent and
+    the arguments arrive in the entry function's terms; "on every drop" is must == may.
+  * "the guard handed to the test closure" is the argument of the CALLBACK effect, not a particular statement.
+  * "constructed only in build" is over construction sites with private constructor helpers made transparent
+    (C16_helpers.construction_sites); guard values are compared as inline_deep normal forms.
+  * "copy_app returns the owning TempDir" is the success payload (mk_unwrap) of copy_app.
 """
 import os
 from .lib.cmdmodel import command_model, from_command_fns
-from .lib.effects import vocab_lookup
+from .lib.effects import Effects, vocab_lookup
 from .lib.paths import strip
-from .lib.value import vstr, walk
+from .lib.value import vstr, walk, canon
+from .C16_helpers import construction_sites, param_fields, top_call
 
 TDR = 'libcnb_test::test_runner::TemporaryDockerResources'
 CC = 'libcnb_test::container_context::ContainerContext'
 RUN = 'libcnb_test::util::run_command'
-
-
-def drop_commands(prog, sl, ty):
-    f = prog.fns.get('<%s as std::ops::Drop>::drop' % ty)
-    if f is None:
-        return None, []
-    out = []
-    for c in f.calls:
-        if c.name == RUN:
-            out.append((c, strip(sl.operand(f, c.args[0]))))
-    return f, out
-
-
-def self_fields(v, f):
-    res = []
-    for x in walk(v):
-        if x[0] == 'field' and x[1][0] == 'param' and x[1][1] == f.path and x[1][2] == 0:
-            res.append(x[2])
-    return res
+RID = 'libcnb_test::util::random_docker_identifier'
+BI = 'libcnb_test::test_runner::TestRunner::build_internal'
+PACK_NEW = 'libcnb_test::pack::PackBuildCommand::new'
+DRUN_NEW = 'libcnb_test::docker::DockerRunCommand::new'
+RM_IMAGE = 'libcnb_test::docker::DockerRemoveImageCommand'
+RM_VOLUME = 'libcnb_test::docker::DockerRemoveVolumeCommand'
+RM_CONTAINER = 'libcnb_test::docker::DockerRemoveContainerCommand'
+RM_CTORS = {t + '::new': t for t in (RM_IMAGE, RM_VOLUME, RM_CONTAINER)}
+GUARD_NAMES = ['image_name', 'build_cache_volume_name', 'launch_cache_volume_name']
 
 
 def run(ctx, rep):
@@ -57,6 +58,15 @@ def run(ctx, rep):
     cmds = from_command_fns(prog)
     models = {ty: command_model(prog, sl, f) for ty, f in cmds.items()}
     w = lambda f: '%s:%d' % (f.file, f.line)
+    # call sites of these functions are enumerated context-sensitively, arguments in the entry function's terms
+    E = Effects(prog, sl, vocab={RUN: ('RUN', 0), PACK_NEW: ('PACK_NEW', None), DRUN_NEW: ('DRUN_NEW', None), BI: ('BUILD_INTERNAL', None)})
+    _exp = {}
+
+    def effects(f, mode):
+        k = (f.path, mode)
+        if k not in _exp:
+            _exp[k] = E.expand(f, mode)
+        return _exp[k]
 
     def removal_shape(ty, sub, field):
         """From<ty>: args [sub..., field], --force under field force; new() sets force = true"""
@@ -77,73 +87,113 @@ def run(ctx, rep):
         named = any(x[0] == 'param' and x[2] == 0 for x in walk(fl.get(field, ('unknown',))))
         return ok and forced and named, 'argv=%s %s fields=%s force_guard=%s force_default=%s' % (program, consts, fields, [it.conds for it in force], forced)
 
+    def drop_runs(ty):
+        """(drop fn, commands the drop may run, commands it runs on every drop) as RUN effects in terms of `self`"""
+        f = prog.fns.get('<%s as std::ops::Drop>::drop' % ty)
+        if f is None:
+            return None, [], []
+        return f, [e for e in effects(f, 'may') if e.kind == 'RUN'], [e for e in effects(f, 'must') if e.kind == 'RUN']
+
+    def removal(e, f):
+        """what a command handed to run_command denotes: (removal command type | None, fields of self it names).
+        `X::new(..)` (force default checked with the command shape) and a literal `X { force: true, .. }` are the same
+        command; private helpers producing it are inlined"""
+        v = sl.inline_deep(strip(e.path), keep=tuple(RM_CTORS))
+        if v[0] == 'call' and v[1] in RM_CTORS:
+            return RM_CTORS[v[1]], param_fields(v, f.path, 0)
+        if v[0] == 'agg' and v[1] in RM_CTORS.values() and strip(dict(v[3]).get('force', ('unknown',))) == ('const', True):
+            return v[1], param_fields(v, f.path, 0)
+        return None, []
+
+    ekey = lambda e: (id(e.call), canon(e.path) if e.path is not None else None)
+
     # ---- R1 --------------------------------------------------------------------------------------------
-    f, cs = drop_commands(prog, sl, TDR)
+    f, may, must = drop_runs(TDR)
     if f is None:
         rep.violated('R1', 'resources/drop-impl', '-', 'TemporaryDockerResources has no Drop impl: image and volumes are never removed')
     else:
         rep.analysed(f)
         got = {}
-        for c, v in cs:
-            if v[0] == 'call':
-                got[v[1]] = (c, sorted(self_fields(v, f)))
-        img = got.get('libcnb_test::docker::DockerRemoveImageCommand::new')
-        vol = got.get('libcnb_test::docker::DockerRemoveVolumeCommand::new')
-        rep.check(img is not None and img[1] == ['image_name'], 'R1', 'resources/image', w(f), 'drop removes self.image_name', 'drop does not remove the image by its own name: %s' % (img and img[1]))
-        rep.check(vol is not None and vol[1] == ['build_cache_volume_name', 'launch_cache_volume_name'], 'R1', 'resources/volumes', w(f),
-                  'drop removes both cache volumes', 'drop removes volumes %s (expected both cache volumes)' % (vol and vol[1]))
-        for ty, sub, field in (('libcnb_test::docker::DockerRemoveImageCommand', ['rmi'], 'image_name'), ('libcnb_test::docker::DockerRemoveVolumeCommand', ['volume', 'remove'], 'volume_names')):
+        for e in may:
+            ty, fields = removal(e, f)
+            if ty is not None:
+                got[ty] = sorted(fields)
+        img = got.get(RM_IMAGE)
+        vol = got.get(RM_VOLUME)
+        rep.check(img == ['image_name'], 'R1', 'resources/image', w(f), 'drop removes self.image_name', 'drop does not remove the image by its own name: %s' % img)
+        rep.check(vol == ['build_cache_volume_name', 'launch_cache_volume_name'], 'R1', 'resources/volumes', w(f),
+                  'drop removes both cache volumes', 'drop removes volumes %s (expected both cache volumes)' % vol)
+        for ty, sub, field in ((RM_IMAGE, ['rmi'], 'image_name'), (RM_VOLUME, ['volume', 'remove'], 'volume_names')):
             ok, why = removal_shape(ty, sub, field)
             rep.check(ok, 'R1', 'command/' + ty.split('::')[-1], w(cmds[ty]) if ty in cmds else '-', 'docker %s --force <names>' % ' '.join(sub), 'removal command shape: ' + why)
-        # the drop must not diverge before both commands ran: both calls unconditional
-        rets = f.return_blocks()
-        rep.check(all(f.dominates(c.bb, r) for c, v in cs for r in rets) and len(cs) == 2, 'R1', 'resources/unconditional', w(f), 'both removals run on every drop', 'a removal is conditional')
-    g, cs = drop_commands(prog, sl, CC)
+        # the drop must not diverge before both commands ran: exactly the two removals, each on every path through drop
+        mk = {ekey(e) for e in must}
+        rep.check(len(may) == 2 and all(ekey(e) in mk for e in may), 'R1', 'resources/unconditional', w(f), 'both removals run on every drop', 'a removal is conditional')
+    g, may, must = drop_runs(CC)
     if g is None:
         rep.violated('R1', 'container/drop-impl', '-', 'ContainerContext has no Drop impl: detached containers are never removed')
     else:
         rep.analysed(g)
-        ok = len(cs) == 1 and cs[0][1][0] == 'call' and cs[0][1][1] == 'libcnb_test::docker::DockerRemoveContainerCommand::new' and self_fields(cs[0][1], g) == ['container_name']
+        ok = len(may) == 1 and removal(may[0], g) == (RM_CONTAINER, ['container_name'])
         rep.check(ok, 'R1', 'container/remove', w(g), 'drop removes self.container_name', 'container drop does not remove its own container')
-        ok, why = removal_shape('libcnb_test::docker::DockerRemoveContainerCommand', ['rm'], 'container_name')
+        ok, why = removal_shape(RM_CONTAINER, ['rm'], 'container_name')
         rep.check(ok, 'R1', 'command/DockerRemoveContainerCommand', w(g), 'docker rm --force <name>', 'removal command shape: ' + why)
     # ---- R2 --------------------------------------------------------------------------------------------
     bi = prog.find_one(r'^libcnb_test::test_runner::TestRunner::build_internal$')
     rep.analysed(bi)
-    rep.check(bi.args[1] == TDR, 'R2', 'resources/by-value-param', w(bi), 'build_internal owns the guard (by-value parameter)', 'build_internal takes the guard as %s' % bi.args[1])
-    unwind_drops = [b for b in bi.blocks if b['cleanup'] and b['t']['t'] == 'drop' and b['t']['p'] == [2]]
+    gi = bi.args.index(TDR) if TDR in bi.args else None        # which parameter owns the guard
+
+    def is_guard(v, fn=bi, idx=None):
+        v = strip(v)
+        return gi is not None and v[0] == 'param' and v[1] == fn.path and v[2] == (gi if idx is None else idx)
+
+    rep.check(gi is not None, 'R2', 'resources/by-value-param', w(bi), 'build_internal owns the guard (by-value parameter)', 'build_internal takes the guard as %s' % (bi.args[1] if len(bi.args) > 1 else None))
+    unwind_drops = [b for b in bi.blocks if gi is not None and b['cleanup'] and b['t']['t'] == 'drop' and b['t']['p'] == [gi + 1]]
     rep.check(bool(unwind_drops), 'R2', 'resources/unwind-drop', w(bi), 'the guard is dropped on the unwind path of build_internal', 'no unwind-path drop of the guard in build_internal')
-    spawns = [c for c in bi.calls if c.name == RUN]
-    tc = [s for b in bi.blocks for s in b['s'] if s[0] == '=' and s[2]['r'] == 'agg' and (s[2].get('adt') or '').endswith('TestContext')]
-    ok = len(tc) == 1
-    if ok:
-        v = sl._rvalue(bi, tc[0][2], set(), 0, None)
-        dr = strip(dict(v[3]).get('docker_resources', ('unknown',)))
-        ok = dr[0] == 'param' and dr[2] == 1
+    bi_may = effects(bi, 'may')
+    spawns = [e for e in bi_may if e.kind == 'RUN']
+    # the test closure (a parameter of build_internal) is called with a TestContext whose docker_resources is the guard
+    handed = []
+    for e in bi_may:
+        if e.kind != 'CALLBACK' or e.path is None or strip(e.path)[0] != 'param' or strip(e.path)[1] != bi.path:
+            continue
+        for a in (e.args or ())[1:]:
+            tcv = next((x for x in walk(sl.inline_deep(a)) if x[0] == 'agg' and (x[1] or '').endswith('TestContext')), None)
+            if tcv is not None:
+                handed.append(dict(tcv[3]).get('docker_resources', ('unknown',)))
+    ok = bool(handed) and all(is_guard(v) for v in handed)
     rep.check(ok and bool(spawns), 'R2', 'resources/moved-into-context', w(bi), 'the same guard is moved into the TestContext handed to the test closure', 'the guard is not moved into the TestContext')
     # pack uses the guard's names
-    pk = [c for c in bi.calls if c.name == 'libcnb_test::pack::PackBuildCommand::new']
-    ok = len(pk) == 1
-    if ok:
-        a = [strip(sl.operand(bi, x)) for x in pk[0].args]
-        names = [x[2] if x[0] == 'field' and x[1][0] == 'param' and x[1][2] == 1 else None for x in a[2:5]]
-        ok = names == ['image_name', 'build_cache_volume_name', 'launch_cache_volume_name']
+    packs = [e for e in bi_may if e.kind == 'PACK_NEW']
+
+    def guard_field(v):
+        v = strip(v)
+        return v[2] if v[0] == 'field' and is_guard(v[1]) else None
+    ok = bool(packs) and all([guard_field(x) for x in e.args[2:5]] == GUARD_NAMES for e in packs)
     rep.check(ok, 'R2', 'resources/names-used', w(bi), 'pack builds exactly the image / volumes named by the guard', 'pack is not given the guard\'s image/volume names')
     sc = prog.find_one(r"^libcnb_test::test_context::TestContext::<'_>::start_container$")
     rep.analysed(sc)
-    ccs = [(bi2, s) for bi2, b in enumerate(sc.blocks) for s in b['s'] if s[0] == '=' and s[2]['r'] == 'agg' and s[2].get('adt') == CC]
-    runs = [c for c in sc.calls if c.name == RUN]
-    ok = len(ccs) == 1 and len(runs) == 1 and sc.dominates(ccs[0][0], runs[0].bb)  # same block: statements precede the call terminator
-    rep.check(ok, 'R2', 'container/guard-before-run', runs[0].where() if runs else w(sc), 'ContainerContext is constructed before `docker run` is issued',
+    cc_made, _ = construction_sites(prog, sl, CC)
+    here = [m for m in cc_made if m.fn is sc and m.kind in ('stmt', 'call')]
+    sc_may = effects(sc, 'may')
+    runs = [e for e in sc_may if e.kind == 'RUN']
+    docker_runs = [e for e in runs if any(x[0] == 'call' and x[1] == DRUN_NEW for x in walk(sl.inline_deep(e.path, keep=(DRUN_NEW, RID))))]
+
+    def exists_at(m, c):
+        """the value made at m exists when call c (a terminator) executes: statements precede the terminator of their block"""
+        return sc.dominates(m.bb, c.bb) and (m.kind == 'stmt' or m.bb != c.bb)
+    ok = len(here) == 1 and bool(docker_runs) and all(exists_at(here[0], top_call(e)) for e in runs)
+    rep.check(ok, 'R2', 'container/guard-before-run', top_call(runs[0]).where() if runs else w(sc), 'ContainerContext is constructed before `docker run` is issued',
               'the container guard is created after (or not on every path before) `docker run`: a failing/panicking start leaks the detached container')
     if ok:
-        v = sl._rvalue(sc, ccs[0][1][2], set(), 0, None)
-        nm = strip(dict(v[3]).get('container_name', ('unknown',)))
-        rn = [c for c in sc.calls if c.name == 'libcnb_test::docker::DockerRunCommand::new']
-        same = len(rn) == 1 and strip(sl.operand(sc, rn[0].args[1])) == nm and nm[0] == 'call' and nm[1] == 'libcnb_test::util::random_docker_identifier'
+        norm = lambda v: strip(sl.inline_deep(strip(v), keep=(RID,)))
+        gv = here[0].value(sl, keep=(RID,))
+        nm = norm(dict(gv[3]).get('container_name', ('unknown',))) if gv[0] == 'agg' else ('unknown',)
+        news = [e for e in sc_may if e.kind == 'DRUN_NEW']
+        same = bool(news) and all(len(e.args) > 1 and norm(e.args[1]) == nm for e in news) and nm[0] == 'call' and nm[1] == RID
         rep.check(same, 'R2', 'container/same-name', w(sc), 'guard and `docker run --name` use the same generated name', 'the guard does not hold the name given to docker run')
-        lcl = ccs[0][1][1][0]
-        ud = [b for b in sc.blocks if b['cleanup'] and b['t']['t'] == 'drop' and b['t']['p'] == [lcl]]
+        owners = {i for i, l in enumerate(sc.locals) if l['ty'] == CC} | {here[0].dest()}
+        ud = [b for b in sc.blocks if b['cleanup'] and b['t']['t'] == 'drop' and len(b['t']['p']) == 1 and b['t']['p'][0] in owners]
         rep.check(bool(ud), 'R2', 'container/unwind-drop', w(sc), 'container guard dropped on the unwind path', 'no unwind-path drop of the container guard')
     # ---- R3 --------------------------------------------------------------------------------------------
     bad = []
@@ -163,26 +213,30 @@ def run(ctx, rep):
     for ty in (TDR, CC):
         traits = [i['trait'] for i in prog.impls if i['self_head'] == ty]
         rep.check(not ({'std::clone::Clone', 'std::marker::Copy'} & set(traits)), 'R4', 'no-clone/' + ty.split('::')[-1], '-', 'neither Clone nor Copy', '%s implements %s' % (ty, traits))
-        sites = [(f2.path, bi2) for f2 in prog.fns.values() if not f2.derived for bi2, b in enumerate(f2.blocks) for s in b['s']
-                 if s[0] == '=' and s[2]['r'] == 'agg' and s[2].get('adt') == ty]
+        made = cc_made if ty == CC else construction_sites(prog, sl, ty)[0]
         want = 'libcnb_test::test_runner::TestRunner::build' if ty == TDR else sc.path
-        rep.check([p for p, _ in sites] == [want], 'R4', 'construction/' + ty.split('::')[-1], '-', 'constructed only in %s' % want.split('::')[-1], 'constructed in %s' % sites)
+        rep.check([m.fn.path for m in made] == [want] and made[0].kind != 'fnitem', 'R4', 'construction/' + ty.split('::')[-1], '-', 'constructed only in %s' % want.split('::')[-1],
+                  'constructed in %s' % [(m.fn.path, m.bb) for m in made])
     bf = prog.find_one(r'^libcnb_test::test_runner::TestRunner::build$')
     rep.analysed(bf)
-    agg = [s for b in bf.blocks for s in b['s'] if s[0] == '=' and s[2]['r'] == 'agg' and s[2].get('adt') == TDR]
-    if agg:
-        v = sl._rvalue(bf, agg[0][2], set(), 0, None)
-        names = {'image_name', 'build_cache_volume_name', 'launch_cache_volume_name'}
-        ok = names <= {n for n, _ in v[3]} and all(any(x[0] == 'call' and x[1] == 'libcnb_test::util::random_docker_identifier' for x in walk(fv))
-                                                     for n, fv in v[3] if n in names)
+    fwd = [e for e in effects(bf, 'may') if e.kind == 'BUILD_INTERNAL']
+    if fwd:
+        # the guard handed to build_internal, private constructors inlined
+        ok = gi is not None
+        v = ('unknown',)
+        for e in fwd:
+            v = sl.inline_deep(strip(e.args[gi]), keep=(RID,)) if ok and gi < len(e.args) else ('unknown',)
+            ok = ok and v[0] == 'agg' and v[1] == TDR and set(GUARD_NAMES) <= {n for n, _ in v[3]} and \
+                all(any(x[0] == 'call' and x[1] == RID for x in walk(fv)) for n, fv in v[3] if n in GUARD_NAMES)
         rep.check(ok, 'R4', 'names-generated', w(bf), 'all three names derive from random_docker_identifier()', 'resource names are not generated per run: ' + vstr(v)[:160])
     rb = prog.find_one(r"^libcnb_test::test_context::TestContext::<'_>::rebuild$")
     rep.analysed(rb)
-    call = [c for c in rb.calls if c.name and c.name.endswith('TestRunner::build_internal')]
-    ok = rb.args[0].startswith('libcnb_test::test_context::TestContext<') and len(call) == 1
+    fwd = [e for e in effects(rb, 'may') if e.kind == 'BUILD_INTERNAL']
+    ok = rb.args[0].startswith('libcnb_test::test_context::TestContext<') and bool(fwd) and gi is not None
     if ok:
-        a1 = strip(sl.operand(rb, call[0].args[1]))
-        ok = a1[0] == 'field' and a1[2] == 'docker_resources' and a1[1][0] == 'param' and a1[1][2] == 0
+        for e in fwd:
+            a1 = strip(e.args[gi]) if gi < len(e.args) else ('unknown',)
+            ok = ok and a1[0] == 'field' and a1[2] == 'docker_resources' and is_guard(a1[1], rb, 0)
     rep.check(ok, 'R4', 'rebuild', w(rb), 'rebuild consumes self and forwards the same guard', 'rebuild does not forward its own guard by value')
     # ---- R5 --------------------------------------------------------------------------------------------
     tys = [l['ty'] for l in bi.locals]
@@ -192,9 +246,18 @@ def run(ctx, rep):
     rep.check(bool(tv) and tv[0]['fields'][0]['ty'] == 'tempfile::TempDir', 'R5', 'AppDir', '%s:%s' % (ad['file'], ad['line']), 'AppDir::Temporary owns a TempDir', 'AppDir::Temporary does not own a TempDir')
     ca = prog.fn('libcnb_test::app::copy_app')
     rep.analysed(ca)
-    cl = prog.closures_of(ca)
-    ok = any(any(c.full and c.full.startswith('<tempfile::TempDir as std::convert::Into<libcnb_test::app::AppDir>>::into') or
-                 (c.full or '').startswith('<libcnb_test::app::AppDir as std::convert::From<tempfile::TempDir>>::from') for c in g2.calls) for g2 in cl)
+    # success payload of copy_app, whatever the spelling (combinator chain / `?` / match): the TempDir made by tempdir(),
+    # as AppDir::Temporary — written as the variant literal or through the From<TempDir> conversion (transparent as a value)
+    pay = sl.inline_deep(sl.mk_unwrap(sl.local(ca, 0), 1))
+    is_tmp = lambda v: strip(v)[0] == 'call' and (strip(v)[1] or '').startswith('tempfile::') and 'libcnb_test::app::AppDir' in ca.ret
+    owning_variant = lambda v, inner: v[0] == 'agg' and v[1] == 'libcnb_test::app::AppDir' and v[2] == 'Temporary' and inner(dict(v[3]).get('0', ('unknown',)))
+    if owning_variant(strip(pay), is_tmp):
+        ok = True
+    elif is_tmp(pay):
+        conv = prog.fns.get('<libcnb_test::app::AppDir as std::convert::From<tempfile::TempDir>>::from')
+        ok = conv is not None and owning_variant(strip(sl.local(conv, 0)), lambda x: strip(x)[0] == 'param' and strip(x)[1] == conv.path and strip(x)[2] == 0)
+    else:
+        ok = False
     rep.check(ok, 'R5', 'copy_app', w(ca), 'the app copy is returned as the owning TempDir', 'copy_app does not return the owning TempDir')
     ds = prog.find_one(r"^libcnb_test::test_context::TestContext::<'_>::download_sbom_files$")
     rep.check('tempfile::TempDir' in [l['ty'] for l in ds.locals], 'R5', 'sbom-dir', w(ds), 'SBOM download dir is an owned TempDir', 'SBOM download dir is not an owned TempDir')
